@@ -163,6 +163,19 @@ class Explorer:
         cache = P.__dict__.setdefault('_frac_parts', {})
         key = v.get_id()
         if key not in cache:
+            # -w: Fraction.__neg__ keeps the denominator and negates the numerator
+            w = None
+            if z3.is_app(v) and v.decl().kind() == z3.Z3_OP_UMINUS:
+                w = v.arg(0)
+            elif z3.is_app(v) and v.decl().kind() == z3.Z3_OP_MUL and v.num_args() == 2 \
+                    and z3.is_rational_value(v.arg(0)) and v.arg(0).numerator_as_long() == -1 \
+                    and v.arg(0).denominator_as_long() == 1:
+                w = v.arg(1)
+            if w is not None:
+                nw = self.frac_part(P, w, 'numerator')
+                dw = self.frac_part(P, w, 'denominator')
+                cache[key] = (-nw, dw, v)
+                return cache[key][0] if attr == 'numerator' else cache[key][1]
             base = v.decl().name() if z3.is_const(v) else P.fresh_name('frac')
             n, d = z3.Int(base + '#num'), z3.Int(base + '#den')
             P.assume(z3.And(d >= 1, v == z3.ToReal(n) / z3.ToReal(d), z3.ToReal(n) == v * z3.ToReal(d),
